@@ -1013,6 +1013,97 @@ fn with_first_line(other: &[u8], line: &[u8]) -> Vec<u8> {
     [line, rest].concat()
 }
 
+/// The `two-module` family of `bpmap` (sidecars whose module info has a second MODULE line, fix d2664d76) is
+/// generated iff env `C08_TWO_MODULE` is `1` (or, without the variable, iff this constant is true). It is off by
+/// default until C10's model `BP.mapStored` / `BP.storedMatches` on main follows d2664d76 (branch agent/C10h):
+/// the lead flips THIS constant to `true` after merging it.
+pub const TWO_MODULE_DEFAULT: bool = false;
+
+pub fn two_module_enabled() -> bool {
+    match std::env::var("C08_TWO_MODULE") {
+        Ok(v) => v == "1",
+        Err(_) => TWO_MODULE_DEFAULT,
+    }
+}
+
+/// a valid `.symindex` with the tables of `idx` and `module_info` as its module-info block (layout of
+/// `serialize_to_bytes`: 48-byte header, module info padded to 4 bytes, FILE / INLINE_ORIGIN entries, symbol
+/// addresses, symbol entries)
+pub fn index_with_module_info(idx: &[u8], module_info: &[u8]) -> Option<Vec<u8>> {
+    let d = crate::gen::breakpad_sym::decode_symindex(idx)?;
+    let mi_len = module_info.len();
+    let pad = (4 - mi_len % 4) % 4;
+    let file_off = 48 + mi_len + pad;
+    let origin_off = file_off + 16 * d.files.len();
+    let addr_off = origin_off + 16 * d.origins.len();
+    let ent_off = addr_off + 4 * d.syms.len();
+    let mut v = b"SYMINDEX".to_vec();
+    for x in [1usize, 48, mi_len, d.files.len(), file_off, d.origins.len(), origin_off, d.syms.len(), addr_off, ent_off] {
+        v.extend_from_slice(&(x as u32).to_le_bytes());
+    }
+    v.extend_from_slice(module_info);
+    v.extend(std::iter::repeat(0u8).take(pad));
+    for (i, l, o) in d.files.iter().chain(d.origins.iter()) {
+        v.extend_from_slice(&i.to_le_bytes());
+        v.extend_from_slice(&l.to_le_bytes());
+        v.extend_from_slice(&o.to_le_bytes());
+    }
+    for s in &d.syms {
+        v.extend_from_slice(&s.0.to_le_bytes());
+    }
+    for s in &d.syms {
+        v.extend_from_slice(&s.1.to_le_bytes());
+        v.extend_from_slice(&s.2.to_le_bytes());
+        v.extend_from_slice(&s.3.to_le_bytes());
+    }
+    Some(v)
+}
+
+pub const OTHER_ID: &str = "AA152DEB2D9B76084C4C44205044422E1";
+
+/// module-info blocks for a sidecar next to a `.sym` whose first line is `line_a` (build A = `MODULE_ID`):
+/// (variant name, module info). `two-module*`: the first line is the text's, a later MODULE line states another
+/// build; the controls keep the reported id equal to A's or break the first line.
+pub fn two_module_infos(line_a: &str) -> Vec<(&'static str, String)> {
+    let line_b = line_a.replace(MODULE_ID, OTHER_ID);
+    vec![
+        // second MODULE line with another id: passes the first-line test of 3f61c23c, reports build B
+        ("two-module", format!("{line_a}\n{line_b}")),
+        // the same with an INFO line in between / a third line / CR after the second line
+        ("two-module-info-between", format!("{line_a}\nINFO CODE_ID ABCDEF0123 t.so\n{line_b}")),
+        ("two-module-three", format!("{line_a}\n{line_b}\nINFO GENERATOR verif")),
+        ("two-module-age", format!("{line_a}\n{}", line_a.replace(MODULE_ID, &format!("{}1", &MODULE_ID[..32])))),
+        // second line does not parse as a MODULE record (no name / not hex / too short an id): the id stays A's
+        ("two-module-second-unparsable", format!("{line_a}\nMODULE Linux x86_64 {OTHER_ID}")),
+        ("two-module-second-unparsable", format!("{line_a}\nMODULE Linux x86_64 zz152DEB t")),
+        ("two-module-second-unparsable", format!("{line_a}\nMODULE Linux x86_64 AA152DEB t")),
+        // second MODULE line with the SAME id but another name / os / lower-case id: id equal, sidecar usable
+        ("two-module-same-id", format!("{line_a}\nMODULE windows x86 {MODULE_ID} other.pdb")),
+        ("two-module-same-id", format!("{line_a}\n{}", line_a.replace(MODULE_ID, &MODULE_ID.to_lowercase()))),
+        // first line differs from the text's only in the id (second line = the text's): first-line test fails
+        ("two-module-first-other", format!("{line_b}\n{line_a}")),
+        ("two-module-first-other", line_b.clone()),
+    ]
+}
+
+/// `bpmap` operations of the `two-module` family around one text (first line = a MODULE record of build A)
+pub fn two_module_ops(text: &[u8], addrs: &[u32], rng: &mut Rng) -> Vec<String> {
+    let Some(own) = make_index(text, 4096) else { return Vec::new() };
+    let Ok(line_a) = std::str::from_utf8(first_line(text)) else { return Vec::new() };
+    if !line_a.contains(MODULE_ID) {
+        return Vec::new();
+    }
+    let mut a: Vec<String> = addrs.iter().take(10).map(|a| a.to_string()).collect();
+    a.insert(rng.below(a.len() as u64 + 1) as usize, "iter".to_string());
+    two_module_infos(line_a)
+        .into_iter()
+        .filter_map(|(name, mi)| {
+            let i = index_with_module_info(&own, mi.as_bytes())?;
+            Some(format!("bpmap {} {} {} {}", hex(text), hex(&i), ties_token(name, text), a.join(" ")))
+        })
+        .collect()
+}
+
 /// one `bpmap` operation: a `.sym` text served with a stored index — its own, of another file with the SAME
 /// MODULE line (used by the repaired `make_index_storage`), of another file with ANOTHER MODULE line (ignored:
 /// the text is indexed itself), a MODULE line that is a proper prefix of the text's / longer than the text,
@@ -1454,6 +1545,22 @@ pub fn fixed_cases(tier: Tier) -> Vec<Case> {
             }
         }
         chunked("foreign-index", ops, 6, &mut out);
+        // (9c) sidecars with a second MODULE line (fix d2664d76), every variant, next to the text of build A;
+        // and a text whose first line is not a MODULE record at all (`MODULE junk` + a valid second line in the sidecar)
+        if two_module_enabled() {
+            let text = format!("{line}\n{body_a}");
+            let mut rng = Rng::new(0xC08D);
+            let mut ops = two_module_ops(text.as_bytes(), &[2048, 4096, 4100, 8192, 8200], &mut rng);
+            let junk = format!("MODULE junk\n{body_a}");
+            if let Some(own) = make_index(text.as_bytes(), 4096) {
+                for mi in [format!("MODULE junk\n{line}"), format!("MODULE junk\n{}", line.replace(MODULE_ID, OTHER_ID))] {
+                    if let Some(i) = index_with_module_info(&own, mi.as_bytes()) {
+                        ops.push(format!("bpmap {} {} {} 4096 4100 iter 8192", hex(junk.as_bytes()), hex(&i), ties_token("two-module-first-unparsable", junk.as_bytes())));
+                    }
+                }
+            }
+            chunked("two-module", ops, 4, &mut out);
+        }
     }
     // (10) scale: production-shaped files through the 1 MiB chunk loop, size-relative CPU budget
     // (functions, line records per function, FILE records, seed: even = blocks in descending address order)
@@ -1470,7 +1577,18 @@ pub fn fixed_cases(tier: Tier) -> Vec<Case> {
 
 pub fn generate(rng: &mut Rng, tier: Tier, _index: u64) -> Vec<String> {
     match rng.below(13) {
-        10 | 11 => bpmap_op(rng, tier).into_iter().collect(),
+        10 | 11 => {
+            if two_module_enabled() && rng.chance(1, 6) {
+                // a generated text with a regular first line, the sidecar = its own index with a doctored module info
+                let sym = if rng.chance(1, 3) { gen_deep_sym(rng, tier, false) } else { gen_sym(rng) };
+                let mut ops = two_module_ops(&sym.text, &sym.addrs, rng);
+                if !ops.is_empty() {
+                    let k = rng.below(ops.len() as u64) as usize;
+                    return vec![ops.swap_remove(k)];
+                }
+            }
+            bpmap_op(rng, tier).into_iter().collect()
+        }
         12 => {
             if rng.chance(1, 2) {
                 deep_case(rng, tier)
